@@ -6,8 +6,16 @@ COMMON_E1 = [
     "bounds are those stated per harness; inputs outside them are outside the claim",
 ]
 
+CB = ("visitor-callback level: a public visitor method (visit_identifier / visit_value / visit_range) or occurrence kernel of a "
+      "validator built with the public constructor is called once with stack-allocated literal nodes and a symbolic scalar "
+      "document and compared with the RFC 8610 meaning of that node")
+
 CLAIMED = {
-    "C02": dict(engines=["E1"], scope="kernel level only: numeric key-domain predicate, bignum tag predicate, literal→CBOR value conversion, and the scalar layer of the decoder (encoding independence of integer/float heads); whole-validator verdicts are outside the claim",
+    "C01": dict(engines=["E1"], scope=CB + ": prelude scalar types on integer/bool/null JSON documents, integer literals, comparison controls (.ne .lt .le .gt .ge) and integer ranges over the whole i64 range. Type choices, arrays, groups, maps, cuts, .size, rule references and every composition of callbacks (the walk from validate_json_from_str down to the callback) are outside the claim",
+                assumptions=COMMON_E1),
+    "C04": dict(engines=["E1"], scope=CB + ": the JSON and the CBOR validator are each compared with the same oracle for the same node and the same integer/bool/null value, so within these bounds they agree with each other; everything that needs more than one callback is outside the claim",
+                assumptions=COMMON_E1),
+    "C02": dict(engines=["E1"], scope="kernel and visitor-callback level: numeric key-domain predicate, bignum tag predicate, literal→CBOR value conversion, the scalar layer of the decoder (encoding independence of integer/float heads), and prelude names / integer literals / comparison controls / integer ranges on scalar CBOR documents over the full 64-bit head range through the public visitor methods; arrays, maps, tags and every composition of callbacks are outside the claim",
                 assumptions=COMMON_E1),
     "C03": dict(engines=["E2", "E1"], scope="acceptance half: cddl.pest (as optimised by pest_meta) accepts exactly the strings derivable from the RFC 8610/9682 ABNF, for every string up to the length bound and every template hole; AST shape is outside the claim; plus (E1) the control-name table agrees with the operator printer",
                 assumptions=[]),
@@ -17,7 +25,7 @@ CLAIMED = {
                 assumptions=COMMON_E1),
     "C07": dict(engines=["E1", "E2"], scope="integer literal decoders incl. 2^63/2^64 windows, hex/base64 decoders on short inputs (E1); text escapes that name no scalar value are rejected by the grammar (E2); unescape_text values, floats and syntactic position are outside the claim",
                 assumptions=COMMON_E1),
-    "C09": dict(engines=["E1"], scope="prelude identities at classification level on schemas without alias rules (full 64-bit integer range, all floats, bignum tags); operator identities evaluated inside the visitors are outside the claim",
+    "C09": dict(engines=["E1"], scope="prelude identities at classification level and at verdict level (visit_identifier on scalar documents), .ne versus equality and inclusive versus exclusive ranges at visitor-callback level in both validators, occurrence indicators of repeating map members (? * + versus 0*1 0* 1*); A / B, .and, .within and anything needing a composition of callbacks are outside the claim",
                 assumptions=COMMON_E1),
     "C10": dict(engines=["E1"], scope="assignment kernels: Kuhn re-assignment = perfect matching and permutation invariant for every 2x2 (thorough: 3x3) compatibility matrix; ledger lookups by physical index; whole-validator order independence is outside the claim",
                 assumptions=COMMON_E1),
@@ -30,8 +38,6 @@ CLAIMED = {
 }
 
 NOT_APPLICABLE = {
-    "C01": "whole JSONValidator runs and single visitor callbacks exceed CBMC's reach here (measured: >9 GB / 10-25 min with up to 20 dependency stubs at unwind 8/3/2); the only pure anchor (prelude name chasing) times out on a 2-rule alias chain; its table part is checked under C09",
-    "C04": "needs whole JSON and CBOR validator runs (or one visitor callback on each side); both exceed CBMC's reach (measured >9 GB / 7 min for one scalar callback with fmt/regex/abnf stubbed)",
     "C08": "relates two whole-validator runs over rule graphs and generic-argument state; unreachable for the same measured reasons as C01",
     "C12": "the duplicate check is inline in convert_cddl and the reference walker consumes pest Pairs; the pest-generated parser is not symbolically executable (measured: >5 GB on the concrete input a=1) and name equality across rules is not expressible in the grammar encoding",
     "C14": "quantifies over thread schedules (not modelled by Kani) and over error lists built along whole-validator paths",
